@@ -133,7 +133,9 @@ class Abstractor:
         s.keep = []        # keep asts alive (ids are only unique while alive)
         s.terms = []       # (kind, var, absargs, const)
         s._lem = []
+        s._nice = []
         s.arith = {}       # ast id -> bool
+        s.bykey = {}
     def has_arith(s, e):
         i = e.get_id()
         r = s.arith.get(i)
@@ -156,9 +158,39 @@ class Abstractor:
             s.memo[i] = e; return e
         k = e.decl().kind()
         ch = [s.abstract(c) for c in e.children()]
-        if k in s.ARITH:
-            v = z3.FreshConst(e.sort(), 'abs')
-            s.add_lemmas(k, v, ch)
+        if k in (z3.Z3_OP_FPA_ADD, z3.Z3_OP_FPA_SUB) and len(ch) == 3:
+            # sums of signed terms: x+y, y+x share a variable; (-x)+(-y), x-y / y-x are linked to their mirror
+            def strip(t):
+                if z3.is_app_of(t, z3.Z3_OP_FPA_NEG): return t.arg(0), True
+                return t, False
+            (p, np), (q, nq) = strip(ch[1]), strip(ch[2])
+            if k == z3.Z3_OP_FPA_SUB: nq = not nq
+            if q.get_id() < p.get_id(): p, np, q, nq = q, nq, p, np
+            flip = np
+            if flip: np, nq = False, not nq
+            key = (z3.Z3_OP_FPA_ADD, ch[0].get_id(), p.get_id(), q.get_id(), nq)
+            pair = s.bykey.get(key)
+            if pair is None:
+                v = z3.FreshConst(e.sort(), 'abs'); w = z3.FreshConst(e.sort(), 'abs')   # v = p ± q, w = -(p ± q) computed as (-p) ∓ q
+                s.bykey[key] = (v, w)
+                s.add_lemmas(z3.Z3_OP_FPA_ADD, v, [ch[0], p, q]); s.add_lemmas(z3.Z3_OP_FPA_ADD, w, [ch[0], p, q])
+                # rounding to nearest is symmetric: the two agree up to sign, bit for bit unless the result is a zero
+                s._lem.append(z3.Or(w == z3.fpNeg(v), z3.And(z3.fpIsZero(v), z3.fpIsZero(w))))
+                s.keep.append(p); s.keep.append(q)
+            else:
+                v, w = pair
+            r = w if flip else v
+        elif k in s.ARITH:
+            ids = [c.get_id() for c in ch]
+            if k == z3.Z3_OP_FPA_MUL and len(ids) == 3:
+                key = (k, ids[0]) + tuple(sorted(ids[1:]))          # commutative
+            else:
+                key = (k,) + tuple(ids)
+            v = s.bykey.get(key)
+            if v is None:
+                v = z3.FreshConst(e.sort(), 'abs')
+                s.bykey[key] = v
+                s.add_lemmas(k, v, ch)
             r = v
         else:
             r = e.decl()(*ch)
@@ -170,6 +202,12 @@ class Abstractor:
         fargs = [c for c in ch if isinstance(c, z3.FPRef)]
         nan_in = z3.Or(*[z3.fpIsNaN(c) for c in fargs]) if fargs else z3.BoolVal(False)
         L.append(z3.Implies(nan_in, z3.fpIsNaN(v)))
+        if k == z3.Z3_OP_FPA_ADD and len(fargs) == 2:
+            # exact characterisation of NaN results of a sum (args given with their signs already applied by the caller
+            # only for the unsigned canonical form, so state it sign-agnostically: NaN needs a NaN or two infinities)
+            x, y = fargs
+            L.append(z3.Implies(z3.fpIsNaN(v), z3.Or(nan_in, z3.And(z3.fpIsInf(x), z3.fpIsInf(y)))))
+            L.append(z3.Implies(z3.And(z3.Not(nan_in), z3.Xor(z3.fpIsInf(x), z3.fpIsInf(y))), z3.fpIsInf(v)))
         if k in (z3.Z3_OP_FPA_MUL, z3.Z3_OP_FPA_DIV) and len(fargs) == 2:
             x, y = fargs
             cx = isinstance(x, z3.FPNumRef); cy = isinstance(y, z3.FPNumRef)
@@ -184,6 +222,7 @@ class Abstractor:
                     L.append(z3.fpIsNaN(v) == z3.fpIsNaN(t))
                     L.append(z3.Implies(z3.fpIsInf(t), z3.fpIsInf(v)))
                     L.append(z3.Implies(z3.fpIsZero(t), z3.fpIsZero(v)))
+                    s._nice.append(z3.fpIsInf(v) == z3.fpIsInf(t)); s._nice.append(z3.fpIsZero(v) == z3.fpIsZero(t))
                     L.append(z3.Implies(z3.Not(z3.fpIsNaN(t)), z3.fpIsNegative(v) == (z3.Not(z3.fpIsNegative(t)) if neg else z3.fpIsNegative(t))))
                     key = ('mul' if k == z3.Z3_OP_FPA_MUL else 'div', c.get_id())
                     for (key2, v2, t2, neg2) in s.terms:
@@ -201,6 +240,8 @@ class Abstractor:
                 L.append(z3.Implies(z3.And(z3.Not(nan_in), z3.Not(z3.And(z3.fpIsInf(x), z3.fpIsZero(y))), z3.Not(z3.And(z3.fpIsZero(x), z3.fpIsInf(y)))), z3.Not(z3.fpIsNaN(v))))
     def lemmas(s):
         return s._lem
+    def nice(s):
+        return s._nice
 
 class Frame:
     __slots__ = ('fn', 'regs', 'allocas')
@@ -676,6 +717,12 @@ class Exec:
         # float
         if is_sym(a) or is_sym(b):
             if rt.k != 'double': raise Unsupported('symbolic f32 arithmetic')
+            # x*1.0 = x/1.0 = x exactly (sign of zero, infinities and the single NaN included)
+            if op == 'fmul':
+                if not is_sym(b) and b == 1.0: return to_fp(a)
+                if not is_sym(a) and a == 1.0: return to_fp(b)
+            elif op == 'fdiv':
+                if not is_sym(b) and b == 1.0: return to_fp(a)
             a = to_fp(a); b = to_fp(b)
             if op == 'fadd': return z3.fpAdd(RNE, a, b)
             if op == 'fsub': return z3.fpSub(RNE, a, b)
@@ -781,18 +828,30 @@ class Exec:
                 s.last_model = None
                 return 'unsat'
             if r == z3.sat and s.symvars:
-                # candidate inputs from the abstract model: accept them if they satisfy the exact formula
+                # candidate inputs from the abstract model: accept them if they satisfy the exact formula.
+                # First ask for a "well-behaved" abstract model (no overflow/underflow in products by constants),
+                # whose inputs are far more likely to satisfy the exact formula; then the unconstrained one.
                 t1 = time.time()
-                am = sol.model()
-                cm = ConcreteModel([(v, am.eval(v, model_completion=True)) for v in s.symvars.values()])
-                ok = True
-                for c in (s.path + ([extra] if extra is not None else [])):
-                    if not z3.is_true(cm.eval(c)): ok = False; break
+                cands = []
+                sol.push(); sol.add(*ab.nice())
+                if sol.check() == z3.sat: cands.append(sol.model())
+                sol.pop()
+                cands.append(sol.model() if not cands else None)
+                if cands[-1] is None:
+                    cands.pop()
+                    if sol.check() == z3.sat: cands.append(sol.model())
+                allc = s.path + ([extra] if extra is not None else [])
+                for am in cands:
+                    cm = ConcreteModel([(v, am.eval(v, model_completion=True)) for v in s.symvars.values()])
+                    ok = True
+                    for c in allc:
+                        if not z3.is_true(cm.eval(c)): ok = False; break
+                    if ok:
+                        s.solver_time += time.time() - t1
+                        s.queries += 1; s.abs_sat += 1
+                        s.last_model = cm
+                        return 'sat'
                 s.solver_time += time.time() - t1
-                if ok:
-                    s.queries += 1; s.abs_sat += 1
-                    s.last_model = cm
-                    return 'sat'
         t0 = time.time()
         sol = z3.Solver()
         sol.set('timeout', s.opts.query_timeout_ms)
@@ -804,7 +863,7 @@ class Exec:
         res = 'sat' if r == z3.sat else ('unsat' if r == z3.unsat else 'unknown')
         if res == 'unknown': s.unknowns += 1
         if SLOWLOG and dt > SLOWLOG:
-            sys.stderr.write('SLOW %.1fs %s in %s | extra=%s | npath=%d\n' % (dt, res, demangle(s.callstack[-1]) if s.callstack else '?', (extra.sexpr()[:300].replace('\n', ' ') if extra is not None else None), len(s.path)))
+            sys.stderr.write('SLOW %.1fs %s in %s | extra=%s | npath=%d\n' % (dt, res, demangle(s.callstack[-1]) if s.callstack else '?', (extra.sexpr()[:3000].replace('\n', ' ') if extra is not None else None), len(s.path)))
         s.last_model = sol.model() if res == 'sat' else None
         ctl = s.ctl
         if ctl is not None and ctl.sample_dir and res != 'unknown':
